@@ -332,6 +332,8 @@ impl<'tcx> Cx<'tcx> {
         let tcx = self.tcx;
         let env = TypingEnv::post_analysis(tcx, did);
         let name = match &suffix { Some(sf) => format!("{}::{}", qpath(tcx, did), sf), None => qpath(tcx, did) };
+        // call-graph facts of a promoted constant belong to the function it was promoted from
+        let ename = qpath(tcx, did);
         let kind = tcx.def_kind(did);
         let promoted = suffix.is_some();
         let mut hdr = format!(
@@ -403,10 +405,10 @@ impl<'tcx> Cx<'tcx> {
                         match &b.1 {
                             Rvalue::Aggregate(k, _) => match &**k {
                                 AggregateKind::Closure(d, _) | AggregateKind::Coroutine(d, _) | AggregateKind::CoroutineClosure(d, _) => {
-                                    let _ = writeln!(edges, "K\t{}\t{}", name, qpath(tcx, *d));
+                                    let _ = writeln!(edges, "K\t{}\t{}", ename, qpath(tcx, *d));
                                 }
                                 AggregateKind::Adt(d, ..) => {
-                                    let _ = writeln!(edges, "A\t{}\t{}", name, qpath(tcx, *d));
+                                    let _ = writeln!(edges, "A\t{}\t{}", ename, qpath(tcx, *d));
                                 }
                                 _ => {}
                             },
@@ -418,14 +420,14 @@ impl<'tcx> Cx<'tcx> {
                                         match r {
                                             Ok(Ok(Some(i))) => {
                                                 self.note(i.def_id());
-                                                let _ = writeln!(edges, "R\t{}\t{}", name, qpath(tcx, i.def_id()));
+                                                let _ = writeln!(edges, "R\t{}\t{}", ename, qpath(tcx, i.def_id()));
                                             }
                                             _ => {
-                                                let _ = writeln!(edges, "T\t{}\t{}\t<reify>", name, qpath(tcx, *d));
+                                                let _ = writeln!(edges, "T\t{}\t{}\t<reify>", ename, qpath(tcx, *d));
                                             }
                                         }
                                     } else if let ty::Closure(d, _) = t.kind() {
-                                        let _ = writeln!(edges, "R\t{}\t{}", name, qpath(tcx, *d));
+                                        let _ = writeln!(edges, "R\t{}\t{}", ename, qpath(tcx, *d));
                                     }
                                 }
                                 PointerCoercion::Unsize => {
@@ -436,7 +438,7 @@ impl<'tcx> Cx<'tcx> {
                                         ty::Adt(_, a) if a.types().next().is_some() => a.type_at(0),
                                         _ => t,
                                     };
-                                    let _ = writeln!(edges, "U\t{}\t{}", name, ty_head(tcx, inner));
+                                    let _ = writeln!(edges, "U\t{}\t{}", ename, ty_head(tcx, inner));
                                 }
                                 _ => {}
                             },
@@ -494,16 +496,16 @@ impl<'tcx> Cx<'tcx> {
                                     Ok(Ok(Some(i))) => {
                                         if matches!(i.def, ty::InstanceKind::Virtual(..)) {
                                             self.note(*cd);
-                                            let _ = writeln!(edges, "T\t{}\t{}\t<dyn>", name, qpath(tcx, *cd));
+                                            let _ = writeln!(edges, "T\t{}\t{}\t<dyn>", ename, qpath(tcx, *cd));
                                         } else {
                                             self.note(i.def_id());
-                                            let _ = writeln!(edges, "C\t{}\t{}", name, qpath(tcx, i.def_id()));
+                                            let _ = writeln!(edges, "C\t{}\t{}", ename, qpath(tcx, i.def_id()));
                                         }
                                     }
                                     _ => {
                                         let recv = cargs.types().next().map(|t| ty_head(tcx, t)).unwrap_or_default();
                                         self.note(*cd);
-                                        let _ = writeln!(edges, "T\t{}\t{}\t{}", name, qpath(tcx, *cd), recv);
+                                        let _ = writeln!(edges, "T\t{}\t{}\t{}", ename, qpath(tcx, *cd), recv);
                                     }
                                 }
                                 self.fn_ref(env, *cd, cargs)
@@ -512,7 +514,7 @@ impl<'tcx> Cx<'tcx> {
                             }
                         }
                         Operand::Copy(p) | Operand::Move(p) => {
-                            let _ = writeln!(edges, "P\t{}", name);
+                            let _ = writeln!(edges, "P\t{}", ename);
                             format!("{{\"ptr\":{}}}", self.place(body, p))
                         }
                         _ => "{\"other\":true}".to_string(),
@@ -525,10 +527,10 @@ impl<'tcx> Cx<'tcx> {
                                 match r {
                                     Ok(Ok(Some(i))) => {
                                         self.note(i.def_id());
-                                                let _ = writeln!(edges, "R\t{}\t{}", name, qpath(tcx, i.def_id()));
+                                                let _ = writeln!(edges, "R\t{}\t{}", ename, qpath(tcx, i.def_id()));
                                     }
                                     _ => {
-                                        let _ = writeln!(edges, "T\t{}\t{}\t<reify>", name, qpath(tcx, *d));
+                                        let _ = writeln!(edges, "T\t{}\t{}\t<reify>", ename, qpath(tcx, *d));
                                     }
                                 }
                             }
@@ -547,7 +549,7 @@ impl<'tcx> Cx<'tcx> {
                 }
                 TerminatorKind::TailCall { .. } => "{\"k\":\"tailcall\"}".to_string(),
                 TerminatorKind::InlineAsm { .. } => {
-                    let _ = writeln!(edges, "X\t{}\tinline_asm", name);
+                    let _ = writeln!(edges, "X\t{}\tinline_asm", ename);
                     "{\"k\":\"asm\"}".to_string()
                 }
             };
@@ -816,11 +818,32 @@ impl rustc_driver::Callbacks for Cb {
                         );
                     }
                     let _ = writeln!(edges, "S\t{}", qpath(tcx, did));
+                    {
+                        // functions referenced from the initializer (fn pointers, closures in lazy statics)
+                        let b = tcx.mir_for_ctfe(did);
+                        cx.dump_edges_only(did, b, &mut edges);
+                    }
                     if self.primary {
                         // the initializer body (so that rules can read constant initial values)
                         let body = tcx.mir_for_ctfe(did);
                         let mut dummy = String::new();
                         cx.dump_body(did, body, "ctfe", &mut out, &mut dummy);
+                    }
+                    continue;
+                }
+                DefKind::Const { .. } | DefKind::AssocConst { .. } => {
+                    // constants may hold function pointers / closures: their bodies are extra roots
+                    let r = std::panic::catch_unwind(std::panic::AssertUnwindSafe(|| {
+                        let b = tcx.mir_for_ctfe(did);
+                        let mut e2 = String::new();
+                        cx.dump_edges_only(did, b, &mut e2);
+                        e2
+                    }));
+                    if let Ok(e2) = r {
+                        if !e2.is_empty() {
+                            let _ = writeln!(edges, "S\t{}", qpath(tcx, did));
+                            edges.push_str(&e2);
+                        }
                     }
                     continue;
                 }
@@ -848,13 +871,15 @@ impl rustc_driver::Callbacks for Cb {
                 // promoted constants (`&"literal"`, `&[..]` temporaries): small bodies of their own
                 let proms = tcx.promoted_mir(did);
                 for (pi, pb) in proms.iter_enumerated() {
-                    let mut dummy = String::new();
-                    cx.dump_body_named(did, pb, "promoted-const", &mut out, &mut dummy, Some(format!("promoted[{}]", pi.as_u32())));
+                    cx.dump_body_named(did, pb, "promoted-const", &mut out, &mut edges, Some(format!("promoted[{}]", pi.as_u32())));
                 }
             } else {
                 let body = tcx.optimized_mir(did);
                 cx.dump_edges_only(did, body, &mut edges);
                 cx.open_options_summary(did, body, &mut edges);
+                for pb in tcx.promoted_mir(did).iter() {
+                    cx.dump_edges_only(did, pb, &mut edges);
+                }
             }
         }
 
